@@ -116,41 +116,50 @@ inductive TInstr where
   | read (locked : Bool)
   /-- `table.write-segment` of a table computed earlier (merged / empty table) -/
   | write
-  /-- `table.write-segment` of `save_table(reg.start_mutation() + es)` -/
-  | save (es : Entries)
+  /-- `table.write-segment` of `save_table(base.start_mutation() + es)` -/
+  | save (onCur : Bool) (es : Entries)
 deriving Repr
 
-/-- `TableStore::{get_head, get_head_locked, save_table}`; the local state is the table the process
-    holds.  `guardEq = false` is the code as it is (F8): `get_head_locked` removes `tables[1..]`
-    without comparing their names with the merged table's name. -/
-def expand (guardEq : Bool) : TInstr → List Nat → List Table → Table → Option (Table × List (Instr Table TInstr))
-  | .write, _, _, reg => some (reg, [])
-  | .save es, _, _, reg =>
-    if reg.isEmpty then none
+/-- process-local state: the table the process holds (result of its last completed operation) and
+    the table its running operation is going to return -/
+structure TLoc where
+  held : Table
+  cur : Table
+deriving DecidableEq, Repr
+
+/-- `TableStore::{get_head, get_head_locked, save_table}`.  `guardEq = false` is the code as it is
+    (F8): `get_head_locked` removes `tables[1..]` without comparing their names with the merged
+    table's name.  `save onCur es` mutates the table just returned by `get_head_locked` (`onCur`) or
+    the table the process already held (a possibly stale head). -/
+def expand (guardEq : Bool) : TInstr → List Nat → List Table → TLoc → Option (TLoc × List (Instr Table TInstr))
+  | .write, _, _, l => some (l, [])
+  | .save onCur es, _, _, l =>
+    let base := if onCur then l.cur else l.held
+    if base.isEmpty then none
     else
-      let t := saveIn (mutate reg es)
-      some (t, [.add t [(true, reg)]])
-  | .read locked, perm, heads, reg =>
+      let t := saveIn (mutate base es)
+      some ({ l with cur := t }, [.add t [(true, base)]])
+  | .read locked, perm, heads, l =>
     match permute heads perm with
     | none => none
-    | some [] => some ([[]], [.client .write, .add [[]] []])
-    | some [t] => some (t, [])
+    | some [] => some ({ l with cur := [[]] }, [.client .write, .add [[]] []])
+    | some [t] => some ({ l with cur := t }, [])
     | some (t0 :: rest) =>
-      if !locked then some (reg, [.lock, .client (.read true)])
+      if !locked then some (l, [.lock, .client (.read true)])
       else
         let m := mergeHeads t0 rest
-        some (m, [.client .write, .add m ((true, t0) :: rest.map fun t => (guardEq, t))])
+        some ({ l with cur := m }, [.client .write, .add m ((true, t0) :: rest.map fun t => (guardEq, t))])
 
-def tableClient (guardEq : Bool) : Client Table TInstr Table :=
-  { expand := expand guardEq, pick := fun _ _ => some 0 }
+def tableClient (guardEq : Bool) : Client Table TInstr TLoc :=
+  { expand := expand guardEq, pick := fun _ _ => some 0, commit := fun l => { l with held := l.cur } }
 
 /-- operations of a process (hook-point programs) -/
 def progGetHead : List (Option TInstr) := [some (.read false)]
 def progGetHeadLocked : List (Option TInstr) := [none, some (.read true)]
-def progSave (es : Entries) : List (Option TInstr) := [some (.save es)]
+def progSave (es : Entries) : List (Option TInstr) := [some (.save false es)]
 /-- the Git backend's pattern: `get_head_locked`, mutate, `save_table` while holding the lock -/
-def progLockedSave (es : Entries) : List (Option TInstr) := [none, some (.read true), some (.save es)]
+def progLockedSave (es : Entries) : List (Option TInstr) := [none, some (.read true), some (.save true es)]
 
-abbrev TState := State Table TInstr Table
+abbrev TState := State Table TInstr TLoc
 
 end JjModel.Table
